@@ -129,6 +129,13 @@ def run(ctx: Ctx) -> Result:
                 dup = sorted({i for i in ids if ids.count(i) > 1})[:3]
                 res.violations.append(Violation('duplicate-id', f'duplicate identifiers {dup}: {desc}', {'injected': desc}))
                 break
+        v, st = explore_two_callers()
+        res.add_case({'explored': 'two callers', 'points': st['points'], 'runs': st['runs']})
+        res.count('explored_interleavings', st['runs'])
+        if v is not None:
+            res.violations.append(Violation('duplicate-id', f"two callers of one generator (urn={v['urn']!r}, {v['warm']} earlier requests, second "
+                                            f"caller {v['dt']} s later) started at scheduling point {v['k']} of the first: identifiers "
+                                            f"{v['ids']} ({v['note']})", {'explored': True, 'k': v['k'], 'urn': v['urn'], 'warm': v['warm'], 'dt': v['dt']}))
         # the same with the generator's integer fields turned into points where a thread gives way to the others
         ids = threaded_ids(4, 1200 if ctx.thorough else 120, ctx.rng, perturb=True)
         res.add_case({'threads': 4, 'calls': len(ids), 'perturbed': True})
@@ -299,6 +306,57 @@ def injected_ids():
                     finally:
                         event_id_mod.time = old
     return out
+
+
+def explore_two_callers():
+    """two callers of ONE generator, the second started at every scheduling point of the first (harness/interleave.py:
+    lock boundaries, creation of locks, every field access): the identifiers handed out must be those of one of the two
+    serial orders.  Returns a violation dict or None, and statistics."""
+    from harness import interleave as il
+    out = None
+    stats_all = {'points': 0, 'runs': 0}
+    for urn in (None,):
+        for warm in (0, 2):
+            for dt in (0, 1):
+                class Sys:
+                    pass
+
+                def build():
+                    s = Sys()
+                    s.t = [700.0]
+                    s.g = BoboGenEventIDUnique(urn) if urn is not None else BoboGenEventIDUnique()
+                    s.ids = []
+                    return s
+
+                def first(s):
+                    for _ in range(warm):
+                        s.g.generate()
+                    s.ids.append(s.g.generate())
+
+                def second(s):
+                    s.t[0] += dt
+                    s.ids.append(s.g.generate())
+                    s.ids.append(s.g.generate())
+
+                def observe(s):
+                    return (len(set(s.ids)) == len(s.ids), len(s.ids))
+                holder = {}
+                old = event_id_mod.time
+                event_id_mod.time = lambda: holder['s'].t[0]
+
+                def build2():
+                    holder['s'] = build()
+                    return holder['s']
+                try:
+                    v, st = il.explore(build2, first, second, observe, locks_of=lambda s: [s.g], fields_of=lambda s: [s.g], modules=[event_id_mod],
+                                       extra_allowed=[(True, 3)], max_runs=600)
+                finally:
+                    event_id_mod.time = old
+                stats_all['runs'] += st['runs']
+                stats_all['points'] = max(stats_all['points'], st['points'])
+                if v is not None and out is None:
+                    out = dict(v, urn=urn, warm=warm, dt=dt, ids=list(holder['s'].ids))
+    return out, stats_all
 
 
 def threaded_ids(nthreads, per, rng, perturb=False):
